@@ -71,3 +71,30 @@ def boolStr (b : Bool) : String := if b then "1" else "0"
 def joinWith (sep : String) (l : List String) : String := sep.intercalate l
 
 end Nibiru
+
+namespace Nibiru
+/-- protocol lists: "-" is the empty list, items separated by `sep` -/
+def parseItems (sep : String) (s : String) : List String :=
+  if s = "-" || s = "" then [] else s.splitOn sep
+
+def renderItems (sep : String) (l : List String) : String :=
+  if l.isEmpty then "-" else sep.intercalate l
+
+/-- `KEY=value` section lookup among the arguments of an op line -/
+def section? (args : List String) (key : String) : Option String :=
+  match args with
+  | [] => none
+  | a :: as =>
+    if a.startsWith (key ++ "=") then some ((a.drop (key.length + 1)).toString) else section? as key
+
+/-- insertion sort by a key, stable -/
+def insertBy {α : Type} (le : α → α → Bool) (x : α) : List α → List α
+  | [] => [x]
+  | y :: ys => if le x y then x :: y :: ys else y :: insertBy le x ys
+
+def sortBy {α : Type} (le : α → α → Bool) : List α → List α
+  | [] => []
+  | x :: xs => insertBy le x (sortBy le xs)
+
+def sumInts (l : List Int) : Int := l.foldl (· + ·) 0
+end Nibiru
